@@ -73,9 +73,10 @@ def proof_obligations(prop):
     t0 = time.time()
     gen_err = None
     try:
-        import gen_fragments, gen_guards
+        import gen_fragments, gen_guards, gen_skel
         gen_info = gen_fragments.regenerate()
         gen_info["guards"] = gen_guards.regenerate()     # scan guards translated from the current sources
+        gen_info["skeleton"] = gen_skel.regenerate()     # control skeleton of the scan loops, from the current sources
     except Exception as e:   # translator failure is reported, never silently ignored
         gen_info = dict(error=str(e))
         gen_err = str(e)
@@ -144,7 +145,7 @@ def memo_path(key):
 
 def routes_batch(seed, tier, l2, driver, extra_profiles=None, tag="routes", sizes=None):
     sizes = sizes or TIER_SIZES[tier]
-    profiles = extra_profiles or ("opt", "loops", "wide", "tiny", "grid", "grid300", "rewrites", "mixedwait", "asymfp")
+    profiles = extra_profiles or ("opt", "loops", "wide", "tiny", "grid", "grid300", "rewrites", "mixedwait", "asymfp", "shared", "pairfam", "pairfam")
     gen_src = hashlib.sha256(open(os.path.join(HERE, "gen.py"), "rb").read()).hexdigest()[:12]     # generator changes re-run the batch
     key = hashlib.sha256(("%s|%s|%s|%d|%s|%s|%s|%s" % (tag, l2, driver, seed, tier, json.dumps(sizes, sort_keys=True), profiles, gen_src)).encode()).hexdigest()[:24]
     mp = memo_path(key)
